@@ -29,8 +29,9 @@ COQ_IMPORTS = ("From Coq Require Import List Arith Bool.\n"
 RULE = ("one case per (public operation, parameter class, shape): operations enumerated from dir() of tensor, sptensor, "
         "ktensor, ttensor, tenmat, sptenmat, sumtensor, pyttb_utils and the pyttb top level (unlisted name = failing case); "
         "shapes (2,3,4), (3,1,2), (2,2,2) (+ (3,4), (2,3,2,2) and seeded random parameters in thorough); operands built fresh "
-        "from python lists; non-trivial = the operation returns at least one non-empty array (or is in-place) and has at "
-        "least one non-empty operand array; distinct = distinct (op, parameter class, shape)")
+        "from python lists; non-trivial = the table entry returns or updates arrays (kind pure / inplace / nocopy, not scalar / "
+        "property / attribute) and its operands hold at least one non-empty array; distinct = distinct (op, parameter class, "
+        "shape, seed)")
 CORRESPONDENCE_ONLY = ["disjointness of result and operand buffers per (operation, parameter class): measured with "
                        "np.shares_memory + cross-writes, not proved for all inputs"]
 ASSUMPTIONS = [
@@ -47,7 +48,7 @@ EXPLANATION = ("Level other: C05_frame/C05_copy/C05_inplace_footprint are proved
                "cross-write observations agree with what the frame theorem predicts).")
 
 SHAPES = [(2, 3, 4), (3, 1, 2), (2, 2, 2)]
-SHAPES_THOROUGH = [(3, 4), (2, 3, 2, 2)]
+SHAPES_THOROUGH = [(3, 4), (2, 3, 2, 2), (4, 1, 3)]
 CUBE = [(2, 2, 2)]
 NOSINGLE = [(2, 3, 4), (2, 2, 2)]
 CLASSES = ["tensor", "sptensor", "ktensor", "ttensor", "tenmat", "sptenmat", "sumtensor"]
@@ -892,6 +893,57 @@ def _utils_table():
 
 _utils_table()
 
+# ---- seed-driven parameter classes (one fixed draw in quick, several seeds in thorough) ------------------
+def _rnd(shape, seed, salt=0):
+    import random
+    return random.Random(seed * 1000003 + sum(int(s) * 31 ** i for i, s in enumerate(shape)) + 7919 * salt)
+
+
+def rand_order(shape, seed):
+    r = _rnd(shape, seed, 1)
+    o = list(range(len(shape)))
+    r.shuffle(o)
+    return o
+
+
+def keeps_f_layout(shape, order):
+    """np.transpose(F-array, order) is still F-contiguous iff the non-singleton modes keep their relative order"""
+    ns = [m for m in order if shape[m] != 1]
+    return ns == sorted(ns)
+
+
+def _random_table():
+    ro = lambda b: np.array(rand_order(b.shape, b.seed))
+    rdim = lambda b, salt=2: _rnd(b.shape, b.seed, salt).randrange(b.N)
+
+    def rdims(b, salt=3):
+        r = _rnd(b.shape, b.seed, salt)
+        k = r.randrange(1, b.N) if b.N > 1 else 1
+        return np.array(sorted(r.sample(range(b.N), k)))
+    for cls, mk in (("tensor", "T"), ("sptensor", "S"), ("ktensor", "K"), ("ttensor", "TT")):
+        reg(cls, "permute", "random-order", lambda b, mk=mk: dict(X=getattr(b, mk)(), order=ro(b)), lambda o: o.X.permute(o.order))
+        reg(cls, "ttv", "random-dim", lambda b, mk=mk: dict(X=getattr(b, mk)(), v=b.vec(rdim(b))), lambda o, b: o.X.ttv(o.v, rdim(b)), shapes=NOSINGLE)
+    for cls, mk in (("tensor", "T"), ("sptensor", "S"), ("ttensor", "TT")):
+        reg(cls, "ttm", "random-dim", lambda b, mk=mk: dict(X=getattr(b, mk)(), M=b.mat(rdim(b, 4), 3)), lambda o, b: o.X.ttm(o.M, rdim(b, 4)))
+    for cls, mk in (("tensor", "T"), ("sptensor", "S")):
+        reg(cls, "collapse", "random-dims", lambda b, mk=mk: dict(X=getattr(b, mk)(), dims=rdims(b)), lambda o: o.X.collapse(o.dims))
+
+        def key(b):
+            r = _rnd(b.shape, b.seed, 5)
+            out = []
+            for s in b.shape:
+                lo = r.randrange(s)
+                out.append(slice(lo, r.randrange(lo + 1, s + 1)))
+            return tuple(out)
+        reg(cls, "__getitem__", "random-slices", lambda b, mk=mk: dict(X=getattr(b, mk)()), lambda o, b, key=key: o.X[key(b)])
+    reg("tensor", "to_tenmat", "random-rdims", lambda b: dict(X=b.T(), r=rdims(b, 6)), lambda o: o.X.to_tenmat(o.r))
+    reg("sptensor", "to_sptenmat", "random-rdims", lambda b: dict(X=b.S(), r=rdims(b, 6)), lambda o: o.X.to_sptenmat(o.r))
+    reg("tensor", "scale", "random-dim", lambda b: dict(X=b.T(), f=b.vec(rdim(b, 7))), lambda o, b: o.X.scale(o.f, rdim(b, 7)))
+    reg("sptensor", "scale", "random-dim", lambda b: dict(X=b.S(), f=b.vec(rdim(b, 7)), d=np.array([rdim(b, 7)])), lambda o: o.X.scale(o.f, o.d))
+
+
+_random_table()
+
 #TABLE-SECTIONS
 
 
@@ -928,6 +980,14 @@ def public_surface():
     return out
 
 
+def _has_operand_array(e, shp, sd):
+    try:
+        ops = e["build"](B(shp, sd))
+        return any(a.size > 0 for _p, a in U.arrays_of(np, list(ops.items())))
+    except Exception:
+        return False
+
+
 def gen_cases(rng, tier):
     big = tier == "thorough"
     cases = []
@@ -943,10 +1003,10 @@ def gen_cases(rng, tier):
             shapes = list(e["shapes"] or SHAPES)
             if big and e["tshapes"]:
                 shapes += SHAPES_THOROUGH
-            seeds = [0] + ([rng.randrange(1, 1000) for _ in range(2)] if big else [])
+            seeds = [0] + ([rng.randrange(1, 100000) for _ in range(4)] if big else [])
             for shp in shapes:
                 for sd in seeds:
-                    nt = e["kind"] in ("pure", "inplace", "nocopy")
+                    nt = e["kind"] in ("pure", "inplace", "nocopy") and _has_operand_array(e, shp, sd)
                     cases.append(Case(f"{ns}.{name}", {"pclass": e["pclass"], "shape": list(shp), "seed": sd, "kind": e["kind"]}, nt))
     # table entries whose name no longer exists are reported too (stale table = the surface changed)
     have = set(surface)
@@ -1075,6 +1135,11 @@ FINDING_CLASSES = {
     "C05-N09": [("utils.tt_renumber", "slices"), ("utils.tt_renumber", "list-range"), ("utils.tt_renumber", "partial-slice")],
 }
 TRIGGERS = {"c05_" + fid.replace("-", "_").lower(): _trig(*pairs) for fid, pairs in FINDING_CLASSES.items()}
+# seed-driven classes fall under a finding exactly when the drawn parameter lies in the finding's class
+TRIGGERS["c05_a_18"] = lambda c, _t=TRIGGERS["c05_a_18"]: _t(c) or (
+    c.op == "tensor.permute" and c.args.get("pclass") == "random-order"
+    and keeps_f_layout(c.args["shape"], rand_order(tuple(c.args["shape"]), c.args.get("seed", 0))))
+TRIGGERS["c05_a_20"] = lambda c, _t=TRIGGERS["c05_a_20"]: _t(c) or (c.op == "ktensor.ttv" and c.args.get("pclass") == "random-dim")
 
 
 def _witness(fid):
